@@ -18,7 +18,9 @@ MANIFEST = {
             "(per-step schedule replay, monitors lfq:*) is re-run as part of this check. "
             "No model: the real-time stress family harness/cmd/c04esc (workers failing under Resume-always supervisors that decide on other goroutines, "
             "later serials queued behind every failure; monitors C02:esc:message-stranded, stranded-until-later-traffic, duplicate, order, "
-            "dead-letter-while-alive) as search oracle.",
+            "dead-letter-while-alive) as search oracle. Likewise harness/cmd/c02term: 2-4 goroutines tell numbered messages to an actor while it is being terminated (immediately / gracefully, with or "
+            "without a child): every message handled exactly once or reported exactly once as a dead letter (monitors C02:term:duplicate-handled, "
+            "duplicate-dead-letter, handled-and-dead-letter, lost, send-blocks, send-panics).",
     "note": "That a script never reuses a serial for the same receiver (freshness of the harness's serial counter) is checked per run, not proved. Liveness is the safety statement "
             "'quiescent => empty' plus assumed scheduler fairness. Same trusted base as C01.",
     "technique": "Coq proof (counter + poised-thread invariants, no-lost-wake-up) + per-step schedule replay of the instrumented source in Coq",
@@ -53,6 +55,11 @@ def check(ctx):
     # serials queued behind every failure (monitors only: stranded / duplicated / reordered / dead-lettered while alive)
     e = vlib.go_build(ctx, "c04esc")
     vlib.run_harness(ctx, e, "esc", coq=False, kinds=["C02:esc:"])
+    # terminate under fire: goroutines telling numbered messages while the receiver is terminated — exactly one outcome each
+    t = vlib.go_build(ctx, "c02term")
+    vlib.run_harness(ctx, t, "term", coq=False, kinds=["C02:term:"])
+    ctx.trusted.append("sub-harness 'term' (harness/cmd/c02term): search oracle only, no model — real ActorSystem in real time, GOMAXPROCS >= 4, a "
+                       "recording dead-letter process; 5 s without progress counts as quiescent")
     ctx.trusted.append("sub-harness 'esc' (harness/cmd/c04esc): search oracle only, no model — real ActorSystem in real time, GOMAXPROCS >= 4; "
                        "1.5 s without progress counts as quiescent; the interleavings are those the Go runtime happens to produce")
     if ctx.tier == "thorough":
@@ -69,4 +76,7 @@ def replay(ctx, path):
     if json.load(open(path)).get("sub") == "esc":
         import c04
         return c04.replay(ctx, path)
+    if json.load(open(path)).get("sub") == "term":
+        import vlib
+        return vlib.standard_replay(ctx, {"term": "c02term"}, path)
     return c01.replay(ctx, path)
